@@ -55,7 +55,10 @@ CLAIMED = {
              "__create_webentity, the write report; the regex search is the modelled matcher): the translated request's report is the specification's "
              "reply and the files end holding the model's next state, for every history whose reopen requests re-supply the rules; the translated "
              "get_potential_prefix (GenTraphR.v) answers the specification's decision without changing a byte, the translated "
-             "remove_webentity_creation_rule is accepted / refused / crashes as the specification says and leaves the model's next RAM table and file.", T_REF, "DESIGN.md section 6 C06",
+             "remove_webentity_creation_rule is accepted / refused / crashes as the specification says and leaves the model's next RAM table and file; "
+             "the translated add_webentity_creation_rule (GenTraphZ.v: the generator dfs_iter translated with a visitor called at every yield, "
+             "because the loop body writes the trie) answers the specification's report and leaves the model's next RAM table, header and file "
+             "(C06_source_rule_install, through the proof that the lazily reading coroutine run alone is the sequential add_rule).", T_REF, "DESIGN.md section 6 C06",
              "The rule family is modelled in Rules.v (stem-level matcher with re.search offset scan) and compared with Python's re on every run."),
     "C07": c(REF + "Props/C07.v: an entry (A,B,n) is in the network iff n = number of submitted links whose ends resolve to A and B (both resolved; A=B "
              "only with include_auto), n <> 0; inbound = transpose; the memory-light variant has the same entries; page tallies = pages resolving "
@@ -84,14 +87,18 @@ CLAIMED = {
              "any history (same state, same other replies), both files are whole blocks in every state, clear with rules = fresh index with them, "
              "clear without = files of a fresh index. Props/C11b.v, on the header class translated from the source on every run (GenTraphW.v: "
              "LRUTrieHeader.__init__ / __ensure / read): opening the trie file of any reachable state builds, without changing a byte, the header "
-             "object of that state; a new file gets counter 0. Runtime part (open flags, buffering): reopen/clear twins on the real implementation.",
+             "object of that state; a new file gets counter 0. Props/C11c.v, on the end of Traph.__init__ and on Traph.clear translated from the source "
+             "on every run (GenTraphI.v): reopening changes no byte and builds the RAM tables and header objects of the model's reopen; creating "
+             "builds the model's init; clear, whatever the stores held, builds the model's clear = a freshly created index (the head of __init__, "
+             "the on-disk branch of clear and close are pinned text, modelled by hand). Runtime part (open flags, buffering): reopen/clear twins on the real implementation.",
              "Coq proof on the model's persistent state + twin runs of the implementation (reopened vs never closed, cleared vs fresh)", "DESIGN.md section 6 C11",
              "Partial for OS page cache / Python buffering, which no model here exhibits."),
     "C12": c("Props/C12.v for EVERY history without clear from ANY state (no well-formedness needed): reported ids strictly increase, all above the header "
              "counter (so above ids of deleted webentities and ids issued before a reopen); one creation request, one id; clear restarts the counter. "
              "Props/C12b.v, on the creation path translated from the source on every run (GenTraphW.v: Traph.create_webentity, __add_prefixes, "
              "__generated_web_entity_id and the LRUTrieHeader object): an accepted creation returns the header counter + 1, one id for all its "
-             "prefixes, and that id is what the header block of the file decodes to afterwards, for every history.",
+             "prefixes, and that id is what the header block of the file decodes to afterwards, for every history; after the translated Traph.clear "
+             "(GenTraphI.v) the header object and the header block hold 0 (C12_source_clear_restarts).",
              "Coq proof: invariant on the header counter by induction over histories; differential run of id sequences across reopen", "DESIGN.md section 6 C12",
              "The 32-bit width of the header field is not modelled (unbounded N)."),
     "C13": c(REF + "Props/C13.v: parents = webentities on proper stem-prefixes, children = webentities on proper extensions (set equality with the "
@@ -128,7 +135,8 @@ CLAIMED["C16"] = c(
     "code between two yields, with the generator's local caches, traversal stacks of block addresses and node data read before a yield; "
     "five kinds: crawl batch, rule installation, page query, network query, page-link query): a batch run alone equals the request, and the "
     "request translated from the source with its sequential meaning (GenTraphB.v, Props/C16s.v) answers the specification's report and "
-    "leaves the model's next files; for ANY "
+    "leaves the model's next files; the lazily reading rule-installation coroutine advanced alone equals the sequential request "
+    "(C16_rule_alone); for ANY "
     "mix of these jobs advanced by ANY schedule from any state related to the specification, the invariants (well-formed tree, addresses, "
     "stub chains, Rcore) hold at every intermediate state (C16_invariant_rules) and, once all are done, the pages with crawled marks are "
     "those of the batches applied one after another, the out- and in-chains of every page are permutations of the sequential ones, in = "
